@@ -92,6 +92,22 @@ class TierModel:
             return OK, [(ents, self.lo, self.hi)]
         return RAISE, before
 
+    def delete_near(self, vals, rel=1e-9):
+        """Gray zone of praatio's tolerant entry equality: the target differs from a
+        stored entry by rounding noise only.  The statement does not say whether
+        that counts as 'the given entry', so BOTH behaviours are accepted - raise and
+        change nothing, or remove exactly one of the tolerance-equal entries - and
+        nothing else (no other entry lost, no corruption)."""
+        vals = tuple(vals)
+        alts = [self.state()]
+        for i, m in enumerate(self.entries):
+            if len(m) == len(vals) and m[-1] == vals[-1] and all(
+                    abs(a - b) <= rel * max(abs(a), abs(b)) + 1e-14 for a, b in zip(m[:-1], vals[:-1])):
+                ents = list(self.entries)
+                ents.pop(i)
+                alts.append((ents, self.lo, self.hi))
+        return "any", alts
+
     def commit(self, state):
         self.entries, self.lo, self.hi = list(state[0]), state[1], state[2]
 
